@@ -381,4 +381,10 @@ def run(prog, rep, tier, snap):
         rep.call(r04_2, prog, rep, ctx)
     rep.rule("R04.3", "descriptor hygiene of the daemon's spawn path", 3)
     rep.call(r04_3, prog, rep)
+    from . import c12
+    rep.rule("R12.7", "every occurrence that comes due reaches the executor (shared with C12)", 1)
+    rep.call(c12.r12_7, prog, rep)
+    from . import c08
+    rep.rule("R08.2", "the daemon's own instant -> timestamp conversion agrees with the calendar tables (shared with C08)", 15)
+    rep.call(c08.r08_2, prog, rep)
 READY = True
